@@ -20,7 +20,8 @@ def regen_bins():
     t, m = py2coq.translate_inline_test(
         os.path.join(fw.REPO, TABLE), 'assignReads', ['keepOverBounds'],
         {'args.keepOverBounds': 'keep', 'args.ref_lengths[read.reference_name]': 'reflen'},
-        'skip_bin', '(keep : bool) (start end_ reflen : Z)', repo_rel=TABLE)
+        'skip_bin', '(keep : bool) (start end_ reflen : Z)', repo_rel=TABLE,
+        must_use=('keep', 'start', 'end_', 'reflen'), body_is=('continue',))
     chunks.append(t); meta.append(m)
     t, m = regen_split_call()
     chunks.append(t); meta.append(m)
